@@ -19,6 +19,11 @@ func VerifDivInt() {
 	qres, qerr := c.QuoInteger(&q, &x, &y)
 	rres, rerr := c.Rem(&r, &x, &y)
 	verifCheckFrozen()
+	if c.Precision == 0 {
+		// documented: the division operations need a positive precision
+		verifAssert(qerr != nil, "C04.quoint.zero_precision_is_error")
+		return
+	}
 	verifObserveOut("quoint", &q, qres, qerr)
 	verifObserveOut("rem", &r, rres, rerr)
 	verifAssert(verifErrSpec(c, qres, qerr), "C03.quoint.err")
